@@ -721,11 +721,19 @@ def run_case(case, keep_world=False):
                 ctl.clock += 2.0 ** -30
             return ctl.clock
         msched.perf_counter = virtual_perf_counter
+        # options that have their documented default value are *not* passed, so the defaults themselves are
+        # exercised (cache=True, debug=False, max_loop_iterations=100, time_resolution=1.0)
+        wkw = {}
+        if wopt.get("debug", False):
+            wkw["debug"] = True
+        if not wopt.get("cache", True):
+            wkw["cache"] = False
+        if wopt.get("max_loop_iterations", 100) != 100:
+            wkw["max_loop_iterations"] = wopt["max_loop_iterations"]
+        if wopt.get("time_resolution", 1.0) != 1.0:
+            wkw["time_resolution"] = wopt["time_resolution"]
         world = mosaik.World(sim_config, skip_greetings=True, asyncio_loop=loop,
-                             debug=bool(wopt.get("debug", False)), cache=bool(wopt.get("cache", True)),
-                             max_loop_iterations=wopt.get("max_loop_iterations", 100),
-                             time_resolution=wopt.get("time_resolution", 1.0),
-                             mosaik_config={"stop_timeout": 1, "start_timeout": 5})
+                             mosaik_config={"stop_timeout": 1, "start_timeout": 5}, **wkw)
         if world.loop is not loop:
             # the harness observes and steers the run through World's documented asyncio_loop parameter
             from mvf.core import HarnessError
@@ -779,9 +787,15 @@ def run_case(case, keep_world=False):
         ctl.mode = "run"
         t_start = ctl.clock
         try:
-            world.run(until=scn["until"], rt_factor=ropt.get("rt_factor"),
-                      rt_strict=bool(ropt.get("rt_strict", False)), print_progress=False,
-                      lazy_stepping=bool(ropt.get("lazy_stepping", True)))
+            # the same for run(): rt_factor=None, rt_strict=False, lazy_stepping=True are the documented defaults
+            rkw = {}
+            if ropt.get("rt_factor") is not None:
+                rkw["rt_factor"] = ropt["rt_factor"]
+            if ropt.get("rt_strict", False):
+                rkw["rt_strict"] = True
+            if not ropt.get("lazy_stepping", True):
+                rkw["lazy_stepping"] = False
+            world.run(until=scn["until"], print_progress=False, **rkw)
             res.outcome = "returned"
         except HarnessAbort as e:
             res.outcome = str(e)
